@@ -183,3 +183,22 @@ func NewStaticSession[T any](w io.Writer, comp avro.Compression, blockSize int) 
 	}
 	return staticSession[T]{enc}, nil
 }
+
+// ReadEach reads a file and hands every record to fn inside the callback; the bank is closed
+// right after fn returns (the documented usage), so fn must not retain the value.
+func ReadEach(data []byte, rt reflect.Type, ptrTarget bool, fn func(k int, v reflect.Value) error) (int, error) {
+	var target any
+	if ptrTarget {
+		target = reflect.New(rt).Interface()
+	} else {
+		target = reflect.New(rt).Elem().Interface()
+	}
+	k := 0
+	err := avro.ReadFile(bytes.NewReader(data), target, func(val unsafe.Pointer, rb *avro.ResourceBank) error {
+		err := fn(k, reflect.NewAt(rt, val).Elem())
+		k++
+		rb.Close()
+		return err
+	})
+	return k, err
+}
